@@ -232,6 +232,7 @@ def run (ctx):
   _hdr_copies(ctx, repo)
   _lldp_tlv_header(ctx, repo)
   _unparsed_payload(ctx, repo)
+  _option_packers(ctx, repo)
   from . import c15b
   ctx.stat('TLV value slices compared', c15b.tlv_value_slices(ctx, [c for mn in ('tcp', 'dhcp', 'lldp', 'icmpv6', 'ipv6') for c in repo.mod(PK + '.' + mn).classes.values()], 'D2'))
   _option_walkers(ctx, repo)
@@ -494,6 +495,39 @@ def _skipwords (ctx, repo):
         ctx.ob('R-AGREE', f, "%s over IPv%d: skip word == (pseudo-header %d + checksum offset %d) / 2" % (cname.upper(), ver, size, cs_off), k == want,
                "%d" % k if k == want else "checksum() is told to skip word %d but the checksum field is word %d of pseudo-header+segment: verification of received segments sums the wrong word" % (k, want), (mod, c), 'D4')
   ctx.floor('skip-word constants', n, 4)
+
+def _option_packers (ctx, repo):
+  """serialisers of the nested structures (TCP / MPTCP options, DHCP options, LLDP TLVs, ND options, IPv6 extension headers):
+  definite bytes/str/int/tuple conflicts, and decoders whose cursor advances by another field's length than the one just read"""
+  n = 0
+  for mn in ('tcp', 'dhcp', 'lldp', 'icmpv6', 'ipv6', 'igmp', 'dns', 'rip', 'gre'):
+    try: mod = repo.mod(PK + '.' + mn)
+    except Exception: continue
+    for cls in mod.classes.values():
+      for name in ('pack', '_pack_body', '_pack_data'):
+        f = cls.methods.get(name)
+        if f is None: continue
+        n += 1
+        for cf in btypes.conflicts(f.node, assume={'raw': btypes.B, 'payload': btypes.B}):
+          ctx.bad('R-BYTES', f, "`%s`" % cf.text[:60], "%s of %s and %s: TypeError whenever this statement runs - the structure cannot be serialised" % (cf.kind, cf.left, cf.right), (mod, cf.node), 'D5')
+      un = cls.methods.get('unpack_new')
+      if un is None: continue
+      # `if o.X_length == 4: read ... else: read ...` followed by `off += o.Y_length`: the cursor must move by X_length
+      body = list(ast.walk(un.node))
+      for blk in [x for x in body if hasattr(x, 'body') and isinstance(getattr(x, 'body'), list)]:
+        for fld in ('body', 'orelse'):
+          stmts = getattr(blk, fld, None)
+          if not isinstance(stmts, list): continue
+          for i in range(len(stmts) - 1):
+            a, b = stmts[i], stmts[i + 1]
+            if isinstance(a, ast.If) and isinstance(a.test, ast.Compare) and len(a.test.ops) == 1 and isinstance(a.test.ops[0], ast.Eq) and isinstance(a.test.left, ast.Attribute) and a.test.left.attr.endswith('_length') \
+               and any(isinstance(c_, ast.Call) and call_name(c_) in ('unpack_from', 'unpack') for x_ in a.body + a.orelse for c_ in ast.walk(x_)) \
+               and isinstance(b, ast.AugAssign) and isinstance(b.op, ast.Add) and isinstance(b.value, ast.Attribute) and b.value.attr.endswith('_length'):
+              good = norm(b.value) == norm(a.test.left)
+              ctx.ob('R-AGREE', un, "the cursor advances by the length of the field just read (`%s`)" % norm(b), good, "advance by %s" % norm(b.value) if good else
+                     "the read is sized by `%s` but the cursor then advances by `%s`: whenever the two lengths differ the following fields are read from the wrong bytes and the returned offset does not match the option's length"
+                     % (norm(a.test.left), norm(b.value)), (mod, b), 'D2')
+  ctx.stat('nested-structure serialisers examined', n)
 
 def _unparsed_payload (ctx, repo):
   """IPv4 / IPv6: a next-layer object that could not parse its bytes is replaced by those bytes (confirmed on the reference tree
